@@ -45,9 +45,15 @@ def gen(seed):
         if rev:
             lab = sorted(lab[-1] - p for p in lab)
         off = rnd.choice((0, 0, rnd.randint(1, 5000)))
+        tail = rnd.choice((1, rnd.randint(2, 3000)))
+        if qi in (2, 4):
+            # long unlabelled ends: the declared molecule length (offset + labelled span + tail) exceeds the reference length although the labelled
+            # span is an interior window - legal, and irrelevant once the query is trimmed
+            rx = random.Random(seed * 31 + qi)
+            off, tail = rx.randint(pos[-1] // 2, pos[-1]), rx.randint(pos[-1] // 2, pos[-1])
         lab = [p + off for p in lab]
         qid = 10 + qi if qi else 1        # the two CMAP files have independent id spaces: one query carries the reference's own id
-        queries.append((qid, lab[-1] + rnd.choice((1, rnd.randint(2, 3000))), lab))
+        queries.append((qid, lab[-1] + tail, lab))
         # true pairs in ascending reference order
         truth[qid] = dict(reverse=rev, pairs=[(a + i + 1, (k - i) if rev else (i + 1)) for i in range(k)])
     return ref, queries, truth
